@@ -112,14 +112,8 @@ func ownCodecName(v reflect.Value) (string, bool) {
 	if v.Kind() == reflect.Struct {
 		filled := reflect.New(v.Type()).Elem()
 		filled.Set(v)
-		for i := 0; i < filled.NumField(); i++ {
-			f := filled.Field(i)
-			if v.Type().Field(i).Anonymous && f.Kind() == reflect.Ptr && f.IsNil() {
-				if !f.CanSet() {
-					return "", false
-				}
-				f.Set(reflect.New(f.Type().Elem()))
-			}
+		if !fillEmbeddedPointers(filled, map[reflect.Type]bool{v.Type(): true}) {
+			return "", false
 		}
 		v = filled
 	}
@@ -128,6 +122,44 @@ func ownCodecName(v reflect.Value) (string, bool) {
 		return "", false
 	}
 	return codecName, true
+}
+
+// fillEmbeddedPointers sets the nil embedded pointers of a struct, at every
+// level of embedding (a promoted method may sit behind several of them); a
+// type that embeds itself is filled once. It reports false for an embedded
+// pointer that cannot be set.
+func fillEmbeddedPointers(v reflect.Value, seen map[reflect.Type]bool) bool {
+	for i := 0; i < v.NumField(); i++ {
+		if !v.Type().Field(i).Anonymous {
+			continue
+		}
+		f := v.Field(i)
+		if f.Kind() == reflect.Ptr && f.Type().Elem().Kind() == reflect.Struct {
+			if seen[f.Type().Elem()] {
+				continue
+			}
+			if !f.CanSet() {
+				if f.IsNil() {
+					return false
+				}
+				continue
+			}
+			// a copy of what is there (or a new one): the value of the caller stays as it is
+			n := reflect.New(f.Type().Elem())
+			if !f.IsNil() {
+				n.Elem().Set(f.Elem())
+			}
+			f.Set(n)
+			f = n.Elem()
+		}
+		if f.Kind() == reflect.Struct && !seen[f.Type()] {
+			seen[f.Type()] = true
+			if !fillEmbeddedPointers(f, seen) {
+				return false
+			}
+		}
+	}
+	return true
 }
 
 // promotedCodecName reports whether the codec name of a struct value is the
